@@ -76,6 +76,45 @@ def run_neumann(mutate=None):
     return _run(body, mutate)
 
 
+def run_build_operators(mutate=None):
+    """the operators object the solver actually uses: after the REAL MeshOperators.build_operators, for every CPU sparse solver, the four
+    scalar operators are the matrices of the stencil contracts (storage conversions must not change the matrix) and the factorisation
+    handed to the Poisson solve is the factorisation of that Laplacian"""
+    from pyvc.models.spmodel import SP, _LinalgModel
+
+    class Factor:
+        def __init__(self, m):
+            self.matrix = m
+
+    class Linalg(_LinalgModel):
+        @staticmethod
+        def factorized(m):
+            return Factor(m)
+
+    class SPF(SP):
+        linalg = Linalg
+
+    def body(L):
+        L.ns["sp"] = SPF
+        M = oc.setup_mesh()
+        for name in ("SUPERLU", "UMFPACK", "PARDISO"):
+            ops = L["MeshOperators"](M.mesh, getattr(L["SparseSolver"], name), use_cupy=False, fixed_sites=None, fix_psi=False)
+            ops.build_operators()
+            ax = oc.edge_ax(M)
+            check(f"C03.operators_object.shapes[{name}]", z3.And(sym.eq(ops.mu_laplacian.shape[0], M.N), sym.eq(ops.mu_laplacian.shape[1], M.N),
+                                                                   sym.eq(ops.divergence.shape[0], M.N), sym.eq(ops.mu_gradient.shape[0], M.E)))
+            compare_blocks(f"C03.operators_object.mu_laplacian_is_the_scalar_laplacian[{name}]", ops.mu_laplacian.blocks, oc.laplacian_spec(M), [], ax)
+            compare_blocks(f"C03.operators_object.mu_gradient_is_the_gradient[{name}]", ops.mu_gradient.blocks, oc.gradient_spec(M), [], ax)
+            compare_blocks(f"C03.operators_object.divergence_is_the_divergence[{name}]", ops.divergence.blocks, oc.divergence_spec(M), [], ax)
+            compare_blocks(f"C03.operators_object.boundary_laplacian_is_the_neumann_matrix[{name}]", ops.mu_boundary_laplacian.blocks, oc.neumann_spec(M), [], ax)
+            lu = ops.mu_laplacian_lu
+            if name == "PARDISO":
+                check(f"C03.operators_object.no_stale_factorisation[{name}]", z3.BoolVal(lu is None))
+            else:
+                check(f"C03.operators_object.factorisation_is_of_the_scalar_laplacian[{name}]", z3.BoolVal(isinstance(lu, Factor) and lu.matrix is ops.mu_laplacian))
+    return _run(body, mutate)
+
+
 def run_identities(mutate=None):
     """lemmas over the stencil specs at the generic edge e=(i,j) / boundary edge b"""
     def body(_L):
@@ -148,6 +187,7 @@ def units():
         Unit("build_laplacian", F + "build_laplacian", run_laplacian, props=["C03"], timeout=600),
         Unit("build_neumann_boundary_laplacian", F + "build_neumann_boundary_laplacian", run_neumann, props=["C03"], timeout=300),
         Unit("identities", "lemmas over the stencil contracts (generic edge)", run_identities, props=["C03"], timeout=300),
+        Unit("MeshOperators.build_operators", F + "MeshOperators.build_operators", run_build_operators, props=["C03"], timeout=600),
     ]
 
 
@@ -162,6 +202,9 @@ MUTANTS = [
     dict(name="gradient link on the wrong column", edits=[(M_, "cols = np.concatenate([edge_mesh.edges[:, 1], edge_mesh.edges[:, 0]])", "cols = np.concatenate([edge_mesh.edges[:, 0], edge_mesh.edges[:, 1]])")]),
     dict(name="link exponent sign exp(+i A.d)", edits=[(M_, "link_variable_weights = np.exp(\n            -1j * np.einsum(\"ij, ij -> i\", link_exponents, edge_mesh.directions)\n        )\n    edges0", "link_variable_weights = np.exp(\n            1j * np.einsum(\"ij, ij -> i\", link_exponents, edge_mesh.directions)\n        )\n    edges0")]),
     dict(name="neumann uses boundary index as edge index", edits=[(M_, "boundary_edges_length = edge_mesh.edge_lengths[edge_mesh.boundary_edge_indices]", "boundary_edges_length = edge_mesh.edge_lengths[boundary_index]")]),
+    dict(name="CSC buffers relabelled as CSR for pardiso", edits=[(M_, "            self.mu_laplacian = sp.csc_matrix(self.mu_laplacian)\n            self.mu_laplacian_lu = None",
+                                                                    "            lap = self.mu_laplacian\n            self.mu_laplacian = sp.csr_matrix((lap.data, lap.indices, lap.indptr), shape=lap.shape)\n            self.mu_laplacian_lu = None")], units=["MeshOperators.build_operators"]),
+    dict(name="factorisation of a different matrix", edits=[(M_, "            self.mu_laplacian_lu = sp.linalg.factorized(self.mu_laplacian)", "            self.mu_laplacian_lu = sp.linalg.factorized(self.mu_boundary_laplacian)")], units=["MeshOperators.build_operators"]),
     dict(name="benign: reordered laplacian blocks", expect="pass", edits=[
         (M_, "rows = np.concatenate([edges0, edges1, edges0, edges1])\n    cols = np.concatenate([edges1, edges0, edges0, edges1])", "rows = np.concatenate([edges0, edges1, edges1, edges0])\n    cols = np.concatenate([edges1, edges0, edges1, edges0])"),
         (M_, "            -weights / areas0,\n            -weights / areas1,\n", "            -weights / areas1,\n            -weights / areas0,\n")]),
